@@ -12,10 +12,19 @@ tie:   2-4 real tasks enter/leave guarded sections through Cache.lock, @cache.lo
        on the implementation's own observations: body occupancy per key at every instant with each occupant's
        lease status, foreign unlocks release nothing, own lock released on every exit, a free lock is acquired
        by the next attempt.
+       Transactions: sections are also entered INSIDE `cache.transaction(mode)` blocks (FAST / LOCKED / SERIALIZABLE, nested,
+       opened inside a section, committed and rolled back, with application writes in the overlay) while the other contenders
+       are inside their own transaction or outside any: the lock commands must reach the backend that owns the key (a body that
+       starts although no set_lock reached it is a violation) and the model - whose lock actions bypass the overlay - must agree.
+       Several backends: Cache objects with 2-3 backends under different prefixes, some disabled entirely / without PING /
+       without SET_LOCK; the model is told every backend's health and reads the two inputs of an attempt (SET_LOCK enabled, probe
+       answered) off the backend that OWNS the key; a section entered without the lock is legitimate only when that backend has
+       SET_LOCK disabled ("no locking", fix 9f42eb2) or does not answer the probe.
 """
 from __future__ import annotations
 
 import json
+import os
 from pathlib import Path
 
 from .. import lockrun
@@ -41,12 +50,26 @@ TRUSTED = [
     "the purge sweep is atomic with respect to lock commands (Model/Sweep.lean; theorem atomic_sweeps_are_purge_ops of C11): assumed by "
     "the model's single `purge` operation; exercised by acquirers scheduled at the very instant of a purge tick "
     "(purge_race_cases; tag sweep_split_by_lock_commands stays absent)",
+    "routing of lock keys to backends (longest registered prefix) is C17's theorem; here the harness mirrors the rule "
+    "(lockrun.owner_prefix), checks that every set_lock / unlock / is_locked was executed by the owning backend, and the model owns "
+    "key 100*b+k by backend b",
+    "transactions: the overlay of application writes is modelled only as far as the lock protocol needs it (it exists, the lock commands "
+    "neither read nor write it); commit / rollback of application keys are C03-C05; the :tx_lock: / :serializable:lock keys that LOCKED / "
+    "SERIALIZABLE transactions take on the backend are lock-contract operations on other keys (frame clauses of the contract) and are "
+    "not replayed on the model",
     "Redis: only the contract is stated (SET NX PX + owner-checked _UNLOCK script = the TtlMap instance); "
     "no Redis server or redis-py here (C19)",
     "capacity eviction of lock keys excluded (size=1000 >> keys; C11)",
 ]
 
-PARTIAL = ("the model cannot exhibit: a second cancellation delivered inside the `finally: unlock` (possible only on a "
+PARTIAL = ("KNOWN DEVIATION kept out of the generated space (finding lock_probe_routed_by_message_text, "
+           "proposed_fixes/C06_lock_probe_routed_by_key.diff): at /repo HEAD the facade's liveness probe ping(b'LOCK') is routed by the text "
+           "of the message, i.e. to the default-prefix backend, not to the backend owning the lock key - with the lock key on a prefixed "
+           "backend and the default backend disabled / without PING every contended lock falls through, and without a default backend a "
+           "contended lock() raises NotConfiguredError; generated configurations therefore keep a default backend that answers PING exactly "
+           "when the owning backend does (VERIF_C06_FOREIGN_PROBE=1 lifts this and reports the violation on HEAD); health is configured "
+           "before the tasks start (disable/enable while tasks run is context-local: C17). "
+           "the model cannot exhibit: a second cancellation delivered inside the `finally: unlock` (possible only on a "
            "backend whose unlock suspends; not on Memory), generators abandoned without aclose(), lock keys evicted "
            "by capacity pressure, uuid collisions, non-dyadic ttls; more than 4 tasks / 2 keys are not sampled; a generated program "
            "that deadlocks (circular wait under leases that never lapse) is not judged for termination")
@@ -56,8 +79,7 @@ PARTIAL = ("the model cannot exhibit: a second cancellation delivered inside the
 # events -> model trace, spec oracle
 # ------------------------------------------------------------------------------------------------------
 
-def knum(key: str) -> int:
-    return int(key.rsplit("K", 1)[1])
+knum = lockrun.knum
 
 
 class Analysis:
@@ -70,6 +92,7 @@ class Analysis:
         self.info = info
         self.lines: list[tuple[str, str | None]] = []
         self.impl_in: list[str | None] = []
+        self.impl_tx: list[str] = []
         self.problems: list[dict] = []       # {"kind": "property"|"correspondence", "what": ..., "sig": ...}
         self.tags: set[str] = set()
         self.notes: dict[int, list] = {}     # model line index -> what the purge task did to the store in that sweep
@@ -88,7 +111,11 @@ class Analysis:
         for i, e in enumerate(ev):
             if e["ev"] == "set_lock":
                 last_setlock[e["tok"]] = i
-        acts: dict[str, dict] = {}           # identifier -> activation
+        backends = lockrun.case_backends(self.case)
+        health = {b["p"]: lockrun.health_of(b) for b in backends}
+        unhealthy_other = lambda own: any(h != (True, True) for p, h in health.items() if p != own)
+        txs: dict[int, list] = {}            # task -> [mode, depth, overlay size] of the transaction it is in
+        acts: dict[str, dict] = {}           # identifier (or "sec<n>" when no set_lock reached a backend) -> activation
         by_sec: dict[int, dict] = {}
         lock: dict[str, tuple] = {}          # spec lock state: key -> (identifier, deadline or None)
         bodies: dict[int, dict] = {}         # sections whose body is executing
@@ -101,6 +128,60 @@ class Analysis:
         def emit(line, out):
             self.lines.append((line, out))
             self.impl_in.append(self.impl_inside(acts, now))
+            self.impl_tx.append(",".join(f"{th}:{m}:{d}:{n}" for th, (m, d, n) in txs.items()) or "-")
+
+        owners: dict[str, int] = {}
+
+        def owner_of(key):
+            if key in owners:
+                return owners[key]
+            own = lockrun.owner_prefix(key, backends)
+            if own is None or own != knum(key) // 100:
+                if own is None and not self.case.get("foreign_probe"):
+                    raise HarnessError(f"case uses lock key {key!r} that no configured backend owns")
+                if own is not None:
+                    raise HarnessError(f"case builds lock key {key!r} with a prefix that is not configured")
+            owners[key] = knum(key) // 100
+            return owners[key]
+
+        def on_owner(e):
+            if e.get("be", 0) != owner_of(e["key"]):
+                self.problem("correspondence", "wrong_backend",
+                             f"{e['ev']} on {e['key']} was executed by the backend under prefix "
+                             f"{lockrun.PREFIXES[e['be']]!r}, not by the one that owns the key")
+
+        def new_activation(ident, sec, si):
+            key = si["key"]
+            a = {"id": len(acts), "ident": ident, "sec": sec, "key": key, "ttl": si["ttl"], "wait": si["wait"],
+                 "acq": None, "unlocked": False, "attempts": 0, "first_t": now, "last_attempt_t": None,
+                 "unguarded": None, "left": False}
+            acts[ident] = a
+            by_sec.setdefault(sec, a)
+            if by_sec[sec] is not a:
+                self.problem("correspondence", "two_identifiers", "one lock() call used two identifiers")
+            ttl = "-" if si["ttl"] is None else str(si["ttl"])
+            emit(f"enter {a['id']} {si['task']} {knum(key)} {ttl} {'w' if si['wait'] else 'n'}", "U")
+            if timed and now != si["t"]:
+                self.problem("correspondence", "late_first_attempt",
+                             f"first set_lock of a lock() call came {now - si['t']} ticks after the call")
+            return a
+
+        # after which refused set_lock did the facade's liveness probe come back None?  (one pass over the log)
+        unanswered: set[int] = set()
+        last_refused: dict = {}
+        for i, e in enumerate(ev):
+            k = e["ev"]
+            if k == "set_lock":
+                last_refused[e["sec"]] = None if e["res"] else i
+            elif k == "mw_ping":
+                if not e["res"] and last_refused.get(e.get("sec")) is not None:
+                    unanswered.add(last_refused[e["sec"]])
+            elif k in ("body_enter", "outcome", "disabled") and e.get("sec") in last_refused:
+                last_refused[e["sec"]] = None
+
+        for b in backends:
+            if health[b["p"]] != (True, True):
+                emit(f"backend {b['p']} {int(health[b['p']][0])} {int(health[b['p']][1])}", "U")
 
         def live(key):
             cur = lock.get(key)
@@ -110,7 +191,7 @@ class Analysis:
                 return None
             return cur
 
-        sweep_t = cmd_t = None               # instant of the latest purge sweep / lock command
+        sweep_t = cmd_t = sweep_be = None    # instant of the latest purge sweep (and whose backend's) / lock command
         cmds_since_sweep = 0
         started: set[int] = set()            # sections whose `sec_start` / `outcome` event has been seen so far
         ended: set[int] = set()
@@ -133,7 +214,7 @@ class Analysis:
             for task, sid in innermost.items():
                 si = secinfo[sid]
                 a = by_sec.get(sid)
-                if not si["wait"] or a is None or a["acq"] is not None:
+                if not si["wait"] or a is None or a["acq"] is not None or a["unguarded"]:
                     return False
                 cur = lock.get(si["key"])
                 if cur is None or cur[1] is not None:
@@ -166,32 +247,35 @@ class Analysis:
                 if si is None:
                     self.problem("correspondence", "set_lock_outside_section", f"set_lock on {key} outside any scripted section")
                     continue
+                on_owner(e)
+                in_tx = si["task"] in txs
                 a = acts.get(ident)
                 if a is None:
-                    a = {"id": len(acts), "ident": ident, "sec": sec, "key": key, "ttl": si["ttl"], "wait": si["wait"],
-                         "acq": None, "unlocked": False, "attempts": 0, "first_t": now, "last_attempt_t": None}
-                    acts[ident] = a
-                    by_sec.setdefault(sec, a)
-                    if by_sec[sec] is not a:
-                        self.problem("correspondence", "two_identifiers", "one lock() call used two identifiers")
-                    ttl = "-" if si["ttl"] is None else str(si["ttl"])
-                    emit(f"enter {a['id']} {knum(key)} {ttl} {'w' if si['wait'] else 'n'}", "U")
-                    if timed and now != si["t"]:
-                        self.problem("correspondence", "late_first_attempt",
-                                     f"first set_lock of a lock() call came {now - si['t']} ticks after the call")
+                    a = new_activation(ident, sec, si)
+                down = i in unanswered
                 if e["res"]:
                     out = "A"
                 else:
                     fk = (version, now)
-                    if last_fail.get(ident) == fk and si["wait"]:
+                    if last_fail.get(ident) == fk and si["wait"] and not down:
                         a["attempts"] += 1
                         continue            # an identical retry at the same instant: nothing can have changed
                     last_fail[ident] = fk
                     # wait=False: LockedError follows (or a cancellation lands on the ping probe just before it)
                     gave_up = outcomes.get(sec) == "locked" or (not si["wait"] and outcomes.get(sec) == "cancelled")
-                    out = "L" if (gave_up and last_setlock[ident] == i) else "R"
+                    out = "D" if down else ("L" if (gave_up and last_setlock[ident] == i) else "R")
                     if out == "L":
                         a["failed"] = True
+                    if out == "D":
+                        a["unguarded"] = "D"     # lock() yields without the lock: "backend down"
+                    self.tags.add("contended_attempt")
+                    if in_tx:
+                        self.tags.add("contended_attempt_inside_transaction")
+                    holder = acts.get((live(key) or (None,))[0])
+                    if holder is not None and secinfo[holder["sec"]]["task"] in txs:
+                        self.tags.add("contended_attempt_while_holder_inside_transaction")
+                    if unhealthy_other(owner_of(key)) and health[owner_of(key)] == (True, True):
+                        self.tags.add("contended_attempt_with_another_backend_unhealthy")
                 a["attempts"] += 1
                 if timed and si["wait"] and a["last_attempt_t"] is not None:
                     ci = si.get("ci", 0)
@@ -220,11 +304,14 @@ class Analysis:
                         pass
                     if a["attempts"] > 1:
                         self.tags.add("waiter_acquired")
+                    if in_tx:
+                        self.tags.add("lock_taken_inside_transaction")
                 emit(f"attempt {a['id']}", out)
                 if out == "L":
                     self.tags.add("locked_error")
             elif kind == "unlock":
                 ident, key = e["tok"], e["key"]
+                on_owner(e)
                 cur = live(key)
                 a = acts.get(ident)
                 if a is not None:
@@ -272,26 +359,89 @@ class Analysis:
                         self.tags.add("foreign_unlock_on_free_key")
                     emit(f"funlock {knum(key)} {n}", "T" if e["res"] else "F")
             elif kind == "probe":
+                on_owner(e)
                 emit(f"probe {knum(e['key'])}", "T" if e["res"] else "F")
+            elif kind == "disabled":
+                if e["cmd"] == "set_lock" and e.get("sec") in secinfo and lockrun.is_lock_key(e["key"]):
+                    # the facade answered None for set_lock: the command never reached a backend
+                    sec = e["sec"]
+                    si = secinfo[sec]
+                    a = by_sec.get(sec) or new_activation(f"sec{sec}", sec, si)
+                    a["attempts"] += 1
+                    a["unguarded"] = "N"
+                    emit(f"attempt {a['id']}", "N")
+                else:
+                    self.tags.add("other_command_disabled")
+            elif kind == "tx_begin":
+                th = e["task"]
+                if th in txs:
+                    txs[th][1] += 1
+                else:
+                    txs[th] = [e["mode"], 0, 0]
+                emit(f"txbegin {th} {e['mode']}", "U")
+                self.tags.add("transaction_" + e["mode"])
+                if any(a["acq"] is not None and not a["unlocked"] and secinfo[a["sec"]]["task"] == th for a in acts.values()):
+                    self.tags.add("transaction_opened_inside_section")
+            elif kind == "app_set":
+                th = e["task"]
+                if th in txs:
+                    txs[th][2] += 1
+                emit(f"txset {th} {900 + th} {e['v']}", "U" if th in txs else "I")
+            elif kind == "tx_end":
+                th = e["task"]
+                if th in txs:
+                    if txs[th][1] > 0:
+                        txs[th][1] -= 1
+                    else:
+                        del txs[th]
+                    emit(f"txend {th} {e['how']}", "U")
+                else:
+                    self.problem("correspondence", "tx_end_without_begin", "a transaction block ended that never began")
             elif kind == "sweep":
                 emit("purge", "U")
                 self.notes[len(self.lines) - 1] = [f"{op} {k}" for op, k in e.get("did", [])]
                 self.tags.add("purge_sweep")
-                if sweep_t == now and cmds_since_sweep:
+                if sweep_t == now and cmds_since_sweep and sweep_be == e.get("be", 0):
                     self.tags.add("sweep_split_by_lock_commands")      # the purge suspended part-way and a task got in
                 if cmd_t == now:
                     self.tags.add("sweep_at_the_instant_of_a_lock_command_after_it")
                 if any(op == "del" and lock.get(k) is not None and lock[k][1] is not None and lock[k][1] <= now
                        for op, k in e.get("did", [])):
                     self.tags.add("sweep_collects_expired_lock")
-                sweep_t, cmds_since_sweep = now, 0
+                sweep_t, cmds_since_sweep, sweep_be = now, 0, e.get("be", 0)
             elif kind == "body_enter":
                 sec = e["sec"]
                 a = by_sec.get(sec)
+                legit = False
                 if a is None or a["acq"] is None or a["unlocked"]:
-                    self.problem("property", "body_without_lock",
-                                 f"the guarded body of section {sec} started without holding the lock")
-                bodies[sec] = {"key": secinfo[sec]["key"], "act": a}
+                    key = secinfo[sec]["key"]
+                    own = health[owner_of(key)]
+                    why = a["unguarded"] if a is not None else None
+                    in_tx = secinfo[sec]["task"] in txs
+                    if why == "N" and not own[0]:
+                        legit = True          # set_lock is disabled on the owning backend: no locking (fix 9f42eb2)
+                        self.tags.add("unguarded_entry_set_lock_disabled")
+                    elif why == "D" and own[0] and not own[1]:
+                        legit = True          # the owning backend does not answer the probe: lock()'s documented fallback
+                        self.tags.add("unguarded_entry_owner_does_not_answer_probe")
+                    elif why == "D":
+                        self.problem("property", "body_without_lock",
+                                     f"the guarded body of section {sec} on {key} started without holding the lock: after a refused "
+                                     "set_lock the liveness probe of lock() came back None although the backend that owns the key "
+                                     "is healthy (enabled, answers PING)")
+                    elif why == "N":
+                        self.problem("property", "body_without_lock",
+                                     f"the guarded body of section {sec} on {key} started without holding the lock: set_lock was "
+                                     "answered None although SET_LOCK is enabled on the backend that owns the key")
+                    elif a is None:
+                        self.problem("property", "body_without_lock",
+                                     f"the guarded body of section {sec} on {key} started although no set_lock reached the backend "
+                                     "that owns the key" + (" (the task is inside a transaction: the lock is not in the shared store, "
+                                                            "other tasks cannot see it)" if in_tx else ""))
+                    else:
+                        self.problem("property", "body_without_lock",
+                                     f"the guarded body of section {sec} started without holding the lock")
+                bodies[sec] = {"key": secinfo[sec]["key"], "act": a, "legit": legit}
                 self.check_occupancy(bodies, acts, now)
             elif kind == "body_exit":
                 bodies.pop(e["sec"], None)
@@ -299,7 +449,11 @@ class Analysis:
             elif kind == "outcome":
                 sec = e["sec"]
                 a = by_sec.get(sec)
-                if a is not None:
+                if a is not None and a["unguarded"]:
+                    if not a["left"]:
+                        a["left"] = True
+                        emit(f"leave {a['id']} {how_of.get(sec, 'n')}", "U")      # `yield; return`: no unlock is issued
+                elif a is not None:
                     if a["acq"] is not None and not a["unlocked"]:
                         self.problem("property", "not_released_on_exit",
                                      f"section on {a['key']} ended ({e['outcome']}) without an unlock of its own identifier")
@@ -328,7 +482,10 @@ class Analysis:
     def impl_inside(acts, now) -> str:
         items = []
         for a in sorted(acts.values(), key=lambda a: a["id"]):
-            if a["acq"] is not None and not a["unlocked"]:
+            if a["unguarded"]:
+                if not a["left"]:
+                    items.append(f"{a['id']}:{knum(a['key'])}:U")
+            elif a["acq"] is not None and not a["unlocked"]:
                 within = a.get("dl") is None or now < a["dl"]
                 items.append(f"{a['id']}:{knum(a['key'])}:{'L' if within else 'X'}")
         return ",".join(items) if items else "-"
@@ -341,10 +498,12 @@ class Analysis:
         for key, occ in per_key.items():
             within = [b for b in occ if b["act"] is not None and b["act"]["acq"] is not None
                       and (b["act"].get("dl") is None or now < b["act"]["dl"])]
-            nolock = [b for b in occ if b["act"] is None or b["act"]["acq"] is None]
+            nolock = [b for b in occ if (b["act"] is None or b["act"]["acq"] is None) and not b.get("legit")]
+            if len(occ) >= 2 and any(b.get("legit") for b in occ):
+                self.tags.add("two_bodies_overlap_no_locking")
             if any(b["act"] is not None and b["act"].get("dl") is not None and now >= b["act"]["dl"] for b in occ):
                 self.tags.add("holder_overstays_ttl")
-            if len(occ) >= 2:
+            if len(occ) >= 2 and not any(b.get("legit") for b in occ):
                 self.tags.add("two_bodies_overlap_one_past_lease")
             if len(within) + len(nolock) >= 2:
                 self.problem("property", "mutual_exclusion",
@@ -358,7 +517,7 @@ def model_lines(an: Analysis) -> list[str]:
 
 def compare(an: Analysis, answers: list[str]):
     """first model line where the implementation differs from model / spec / holder set (None if none)"""
-    d_model = d_spec = d_in = None
+    d_model = d_spec = d_in = d_tx = None
     for i, ((line, out), ans) in enumerate(zip(an.lines, answers[1:])):
         if not ans.startswith("model="):
             raise HarnessError(f"driver rejected `{line}`: {ans}")
@@ -369,7 +528,9 @@ def compare(an: Analysis, answers: list[str]):
             d_spec = i
         if d_in is None and an.impl_in[i] != parts["in"]:
             d_in = i
-    return d_model, d_spec, d_in
+        if d_tx is None and an.impl_tx[i] != parts["tx"]:
+            d_tx = i
+    return d_model, d_spec, d_in, d_tx
 
 
 def run_impl(case: dict) -> Analysis:
@@ -403,7 +564,7 @@ def verdict(an: Analysis, answers):
     if props:
         p = props[0]
         return "property", p["sig"], p["what"]
-    dm, ds, di = compare(an, answers)
+    dm, ds, di, dt = compare(an, answers)
     if ds is not None or dm is not None:
         i = ds if ds is not None else dm
         line, out = an.lines[i]
@@ -412,6 +573,9 @@ def verdict(an: Analysis, answers):
     if di is not None:
         return ("correspondence", "holders",
                 f"after step {di} `{an.lines[di][0]}` holders differ: implementation {an.impl_in[di]}, {answers[di + 1]}")
+    if dt is not None:
+        return ("correspondence", "transactions",
+                f"after step {dt} `{an.lines[dt][0]}` open transactions differ: script {an.impl_tx[dt]}, {answers[dt + 1]}")
     corr = [p for p in an.problems if p["kind"] == "correspondence"]
     if corr:
         return "correspondence", corr[0]["sig"], corr[0]["what"]
@@ -474,14 +638,18 @@ def hold_wait_edges(steps, held=()):
     """(held key, the section dict that holds it without ttl, awaited key) for every wait=True section nested, at
     any depth, inside a section on another key whose lease never lapses"""
     for st in steps:
+        if st[0] == "tx":
+            yield from hold_wait_edges(st[2], held)
+            continue
         if st[0] != "lock":
             continue
         sec = st[1]
+        kk = (sec.get("be", 0), sec["key"])
         if sec["wait"]:
             for k, outer in held:
-                if k != sec["key"]:
-                    yield k, outer, sec["key"]
-        inner = held + ((sec["key"], sec),) if sec["ttl"] is None else held
+                if k != kk:
+                    yield k, outer, kk
+        inner = held + ((kk, sec),) if sec["ttl"] is None else held
         yield from hold_wait_edges(sec.get("body", []), inner)
 
 
@@ -522,6 +690,198 @@ def gen_case(rng, i) -> dict:
         case["cancels"] = [[rng.randrange(ntasks), rng.randrange(0, 40)] for _ in range(rng.choice([0, 0, 1, 1, 2]))]
         case["horizon"] = 600
     return case
+
+
+
+FACADE_CFGS = [c for c in CFGS if lockrun.CONFIGS[c]["facade"]]
+# The liveness probe of lock() at /repo HEAD is `self.ping(b"LOCK")` on the facade, which routes by the TEXT OF THE MESSAGE:
+# it asks the backend that owns the string "LOCK" (the default-prefix backend), not the one that owns the lock key, and raises
+# NotConfiguredError when there is no default-prefix backend (finding reported with proposed_fixes/C06_lock_probe_routed_by_key.diff).
+# Until that is repaired the generated configurations keep the two aligned: a default-prefix backend exists and answers PING
+# exactly when the owning backend does.  VERIF_C06_FOREIGN_PROBE=1 lifts the restriction (cases marked "foreign_probe").
+FOREIGN_PROBE = os.environ.get("VERIF_C06_FOREIGN_PROBE") == "1"
+OFFS = [[], [], [], "all", "all", ["ping"], ["set_lock"], ["ping", "set_lock"]]
+
+
+def _ping_on(off) -> bool:
+    return off != "all" and "ping" not in off
+
+
+def gen_backends(rng, foreign=False):
+    """2-3 backends under different prefixes in drawn states of health + the prefixes lock keys are built with.
+    Most draws have a fully healthy owner and at least one other backend that is disabled entirely / has lost PING or
+    SET_LOCK; some have an unhealthy owner (set_lock disabled = no locking; no answer to the probe = lock()'s fallback)."""
+    ps = [0] + rng.sample([1, 2], rng.choice([1, 1, 2]))
+    if foreign and rng.random() < 0.4:
+        ps = ps[1:]
+    backends = [{"p": p, "off": rng.choice(OFFS)} for p in ps]
+    if rng.random() < 0.7:                      # the interesting class: a healthy owner next to an unhealthy backend
+        own = rng.choice(backends)
+        own["off"] = []
+        others = [b for b in backends if b is not own]
+        if others and all(not b["off"] for b in others):
+            rng.choice(others)["off"] = rng.choice(["all", "all", ["ping"], ["ping", "set_lock"]])
+        owners = [own["p"]] + ([rng.choice(others)["p"]] if others and rng.random() < 0.25 else [])
+    else:
+        owners = [b["p"] for b in rng.sample(backends, min(len(backends), rng.choice([1, 1, 2])))]
+    if not foreign:
+        default = backends[0]
+        for b in backends:
+            if b["p"] in owners and b is not default and b["off"] != "all" and "set_lock" not in b["off"] \
+                    and _ping_on(b["off"]) != _ping_on(default["off"]):
+                if default["p"] in owners or rng.random() < 0.5:
+                    b["off"] = ["ping"] if _ping_on(b["off"]) else []
+                else:
+                    default["off"] = [] if _ping_on(b["off"]) else rng.choice(["all", ["ping"]])
+        for b in backends:                       # the default backend may have been changed: re-check every owner
+            if b["p"] in owners and b is not default and b["off"] != "all" and "set_lock" not in b["off"] \
+                    and _ping_on(b["off"]) != _ping_on(default["off"]):
+                b["off"] = ["ping"] if _ping_on(b["off"]) else []
+    rng.shuffle(backends)                        # registration order is not prefix order
+    return backends, owners
+
+
+def assign_backends(steps, rng, backends, owners, main):
+    """build the lock keys of a generated program with the owners' prefixes (mostly `main`: contention)"""
+    usable = [p for p in owners if next(b for b in backends if b["p"] == p)["off"] != "all"]
+    for i, st in enumerate(steps):
+        if st[0] == "lock":
+            be = main if rng.random() < 0.8 else rng.choice(owners)
+            if be:
+                st[1]["be"] = be
+            assign_backends(st[1]["body"], rng, backends, owners, main)
+        elif st[0] == "tx":
+            assign_backends(st[2], rng, backends, owners, main)
+        elif st[0] in ("funlock", "probe"):
+            if usable:
+                steps[i] = st[:3 if st[0] == "funlock" else 2] + [rng.choice(usable)]
+            else:
+                steps[i] = ["point"]         # unlock / is_locked on a disabled backend answer None: not a lock matter
+
+
+def _schedule(rng, ntasks):
+    sched = []
+    for _ in range(rng.randrange(10, 60)):
+        r = rng.random()
+        if r < 0.75:
+            sched.append(rng.randrange(4))
+        elif r < 0.96:
+            sched.append("t")
+        else:
+            sched.append(["c", rng.randrange(ntasks)])
+    return sched
+
+
+def _finish_case(rng, case, gated, ntasks):
+    break_cycles(case)
+    if gated:
+        case["schedule"] = _schedule(rng, ntasks)
+    else:
+        case["starts"] = [rng.choice([0, 0, 0, 1, 2, 4]) for _ in range(ntasks)]
+        case["cancels"] = [[rng.randrange(ntasks), rng.randrange(0, 40)] for _ in range(rng.choice([0, 0, 0, 1]))]
+        case["horizon"] = 600
+    return case
+
+
+def gen_multi_case(rng, i) -> dict:
+    """Cache objects with 2-3 backends under different prefixes, some disabled entirely or with PING / SET_LOCK disabled;
+    2-3 tasks contend for lock keys routed to one (mostly healthy) backend."""
+    gated = i % 2 == 1
+    ntasks = rng.choice([2, 2, 3])
+    backends, owners = gen_backends(rng, FOREIGN_PROBE)
+    main = owners[0]
+    tasks = [gen_task(rng, 1 if rng.random() < 0.8 else 2, gated) for _ in range(ntasks)]
+    for prog in tasks:
+        assign_backends(prog, rng, backends, owners, main)
+    case = {"mode": "gated" if gated else "timed", "cfg": FACADE_CFGS[(i // 2) % len(FACADE_CFGS)], "backends": backends,
+            "tasks": tasks}
+    if FOREIGN_PROBE:
+        case["foreign_probe"] = True
+    return _finish_case(rng, case, gated, ntasks)
+
+
+def _sprinkle_sets(rng, body):
+    for _ in range(rng.choice([0, 1, 1, 2])):
+        body.insert(rng.randrange(len(body) + 1), ["set", rng.randrange(1, 9)])
+
+
+def wrap_in_transactions(rng, prog):
+    """put guarded sections of a generated program INSIDE `cache.transaction(mode)` blocks (whole program / one step /
+    nested blocks) or open a block inside a section body; application writes go into the block's overlay"""
+    mode = rng.choice("ffls" if rng.random() < 0.5 else "fls")
+    end = "e" if rng.random() < 0.15 else "n"
+    r = rng.random()
+    locks = [j for j, st in enumerate(prog) if st[0] == "lock"]
+    if r < 0.4 or not locks:
+        body = list(prog)
+        _sprinkle_sets(rng, body)
+        prog[:] = [["tx", mode, body, end]]
+    elif r < 0.75:
+        j = rng.choice(locks)
+        body = [prog[j]]
+        _sprinkle_sets(rng, body)
+        if rng.random() < 0.2:
+            body = [["tx", rng.choice("fls"), body, "n"]]          # an inner block joins the running transaction
+        prog[j] = ["tx", mode, body, end]
+    else:
+        j = rng.choice(locks)
+        inner = list(prog[j][1]["body"])
+        _sprinkle_sets(rng, inner)
+        prog[j][1]["body"] = [["tx", mode, inner, end]]            # the block is opened (and finished) while the lock is held
+
+
+def _strip_sets(steps):
+    for st in steps:
+        sub = _sub(st)
+        if sub is not None:
+            sub[:] = [x for x in sub if x[0] != "set"]
+            _strip_sets(sub)
+
+
+def one_serializable_writer(case):
+    """two transactions that both write in SERIALIZABLE mode wait for each other in steps of 0.1 s (not a whole number of
+    ticks): only the first task that does so keeps its writes"""
+    def writes_serializable(steps, mode=None):
+        for st in steps:
+            if st[0] == "set" and mode == "s":
+                return True
+            if st[0] == "tx" and writes_serializable(st[2], mode or st[1]):
+                return True
+            if st[0] == "lock" and writes_serializable(st[1]["body"], mode):
+                return True
+        return False
+    seen = False
+    for prog in case["tasks"]:
+        if writes_serializable(prog):
+            if seen:
+                _strip_sets([["tx", "f", prog]])
+            seen = True
+
+
+def gen_tx_case(rng, i) -> dict:
+    """guarded sections entered INSIDE transaction blocks of all three modes, through the facade; the other contenders are
+    inside their own transaction (any mode) or outside any"""
+    gated = i % 2 == 1
+    ntasks = rng.choice([2, 2, 3])
+    nkeys = rng.choice([1, 1, 1, 2])
+    tasks = [gen_task(rng, nkeys, gated) for _ in range(ntasks)]
+    wrapped = 0
+    for prog in tasks:
+        if rng.random() < 0.7 or (prog is tasks[-1] and not wrapped):
+            wrap_in_transactions(rng, prog)
+            wrapped += 1
+    case = {"mode": "gated" if gated else "timed", "cfg": FACADE_CFGS[(i // 2) % len(FACADE_CFGS)], "tasks": tasks}
+    if rng.random() < 0.25:
+        backends, owners = gen_backends(rng, False)
+        for prog in tasks:
+            assign_backends(prog, rng, backends, owners, owners[0])
+        case["backends"] = backends
+    one_serializable_writer(case)
+    return _finish_case(rng, case, gated, ntasks)
+
+
+def tx(mode, body, end="n"):
+    return ["tx", mode, body, end]
 
 
 PURGE_CFGS = [c for c in CFGS if lockrun.CONFIGS[c]["purge"]]
@@ -570,8 +930,11 @@ def gen_purge_race(rng, i) -> dict:
 
 
 # small programs whose schedules are enumerated exhaustively under the gate scheduler
-def sec(key, ttl, wait, body, via="cm", ci=0, end="n"):
-    return ["lock", {"via": via, "key": key, "ttl": ttl, "wait": wait, "ci": ci, "end": end, "body": body}]
+def sec(key, ttl, wait, body, via="cm", ci=0, end="n", be=0):
+    d = {"via": via, "key": key, "ttl": ttl, "wait": wait, "ci": ci, "end": end, "body": body}
+    if be:
+        d["be"] = be
+    return ["lock", d]
 
 
 EXHAUSTIVE = [
@@ -584,8 +947,23 @@ EXHAUSTIVE = [
                                                         [sec(0, 8, True, [["point"]], ci=1, via="gen")]]}),
     ("two_keys_crossed", {"cfg": "facade", "tasks": [[sec(0, 8, True, [sec(1, 8, False, [])])],
                                                       [sec(1, 8, True, [sec(0, 8, False, [])])]]}),
+    ("fast_tx_vs_fast_tx", {"cfg": "facade", "tasks": [[tx("f", [sec(0, 8, True, [["point"]])])],
+                                                        [tx("f", [["set", 1], sec(0, 8, False, [], via="deco")])]]}),
+    ("locked_tx_vs_no_tx", {"cfg": "facade", "tasks": [[tx("l", [["set", 1], sec(0, 8, True, [["point"]], via="deco")])],
+                                                        [sec(0, 8, True, [["point"]])]]}),
+    ("serializable_tx_opened_inside_section", {"cfg": "facade", "tasks": [[sec(0, 8, True, [tx("s", [["set", 1], ["point"]], "e")])],
+                                                                            [tx("f", [sec(0, 8, False, [])])]]}),
+    ("other_backend_disabled_waiter", {"cfg": "facade", "backends": [{"p": 1, "off": "all"}, {"p": 0, "off": []}],
+                                       "tasks": [[sec(0, 8, True, [["point"]])], [sec(0, 8, True, [], via="gen")]]}),
+    ("other_backend_disabled_nowait", {"cfg": "facade", "backends": [{"p": 1, "off": "all"}, {"p": 0, "off": []}],
+                                       "tasks": [[sec(0, 8, True, [["point"]], via="deco")], [sec(0, 8, False, [])]]}),
+    ("prefixed_owner_third_backend_without_ping", {"cfg": "facade", "backends": [{"p": 0, "off": []}, {"p": 2, "off": ["ping"]},
+                                                                                    {"p": 1, "off": []}],
+                                                   "tasks": [[sec(0, 8, True, [["point"]], be=1, via="deco")],
+                                                             [sec(0, 8, True, [["point"]], be=1)]]}),
     ("three_tasks_one_key", {"cfg": "raw", "tasks": [[sec(0, 4, True, [])], [sec(0, 4, True, [])], [sec(0, 4, False, [])]]}),
 ]
+NQUICK = 11      # the first NQUICK programs are enumerated in the quick tier as well
 
 
 def enumerate_all(case: dict, limit: int):
@@ -645,13 +1023,30 @@ def still_fails(case, want):
     return v is not None and v[:2] == want
 
 
+def _sub(st):
+    """the nested step list of a step (section body / transaction body), or None"""
+    if st[0] == "lock":
+        return st[1].get("body", [])
+    if st[0] == "tx":
+        return st[2]
+    return None
+
+
+def _set_sub(st, new):
+    if st[0] == "lock":
+        st[1]["body"] = new
+    else:
+        st[2] = new
+
+
 def _step_lists(case: dict):
-    """paths to every step list of a case: task programs and section bodies at any depth"""
+    """paths to every step list of a case: task programs, section bodies and transaction bodies at any depth"""
     def walk(steps, path):
         yield path
         for i, st in enumerate(steps):
-            if st[0] == "lock":
-                yield from walk(st[1].get("body", []), path + [i])
+            sub = _sub(st)
+            if sub is not None:
+                yield from walk(sub, path + [i])
     for ti, prog in enumerate(case["tasks"]):
         yield from walk(prog, [ti])
 
@@ -659,7 +1054,9 @@ def _step_lists(case: dict):
 def _get_list(case, path):
     steps = case["tasks"][path[0]]
     for i in path[1:]:
-        steps = steps[i][1]["body"]
+        steps = _sub(steps[i])
+        if steps is None:
+            raise KeyError(path)
     return steps
 
 
@@ -670,9 +1067,19 @@ def _with_list(case, path, new):
     else:
         steps = c["tasks"][path[0]]
         for i in path[1:-1]:
-            steps = steps[i][1]["body"]
-        steps[path[-1]][1]["body"] = new
+            steps = _sub(steps[i])
+        _set_sub(steps[path[-1]], new)
     return c
+
+
+def has_tx(case) -> bool:
+    return any(st[0] in ("tx", "set") for path in _step_lists(case) for st in _get_list(case, path))
+
+
+def _unwrap_tx(case, path, i):
+    """the case with the transaction step at position i of the list at `path` replaced by its body"""
+    steps = list(_get_list(case, path))
+    return _with_list(case, path, steps[:i] + list(steps[i][2]) + steps[i + 1:])
 
 
 def shrink(case: dict, want: tuple) -> dict:
@@ -684,7 +1091,7 @@ def shrink(case: dict, want: tuple) -> dict:
         for path in list(_step_lists(cur)):
             try:
                 steps = _get_list(cur, path)
-            except (IndexError, KeyError):
+            except (IndexError, KeyError, TypeError):
                 continue            # an enclosing list was shrunk in the meantime
             if not steps:
                 continue
@@ -693,6 +1100,33 @@ def shrink(case: dict, want: tuple) -> dict:
             elif len(steps) > 1:
                 small = ddmin(steps, lambda s, path=path: still_fails(_with_list(cur, path, s), want))
                 cur = _with_list(cur, path, small)
+        for path in list(_step_lists(cur)):        # a transaction block that is not needed: keep its body, drop the block
+            try:
+                steps = _get_list(cur, path)
+            except (IndexError, KeyError, TypeError):
+                continue
+            for i in range(len(steps) - 1, -1, -1):
+                if steps[i][0] == "tx":
+                    trial = _unwrap_tx(cur, path, i)
+                    if still_fails(trial, want):
+                        cur = trial
+                        steps = _get_list(cur, path)
+        if cur.get("backends"):
+            used = {st[1].get("be", 0) for pth in _step_lists(cur) for st in _get_list(cur, pth) if st[0] == "lock"}
+            for b in list(cur["backends"]):
+                if b["p"] not in used and len(cur["backends"]) > 1:
+                    trial = dict(cur, backends=[x for x in cur["backends"] if x is not b])
+                    if still_fails(trial, want):
+                        cur = trial
+            for b in list(cur["backends"]):
+                if b.get("off"):
+                    trial = dict(cur, backends=[dict(x, off=[]) if x is b else x for x in cur["backends"]])
+                    if still_fails(trial, want):
+                        cur = trial
+            if cur["backends"] == [{"p": 0, "off": []}]:
+                trial = {k: v for k, v in cur.items() if k != "backends"}
+                if still_fails(trial, want):
+                    cur = trial
         if cur.get("cancels"):
             for c in list(cur["cancels"]):
                 trial = dict(cur, cancels=[x for x in cur["cancels"] if x != c])
@@ -703,7 +1137,7 @@ def shrink(case: dict, want: tuple) -> dict:
                 cur = dict(cur, schedule=[])
             elif len(cur["schedule"]) > 1:
                 cur = dict(cur, schedule=ddmin(cur["schedule"], lambda s: still_fails(dict(cur, schedule=s), want)))
-        if cur["cfg"] != "raw" and still_fails(dict(cur, cfg="raw"), want):
+        if cur["cfg"] != "raw" and "backends" not in cur and not has_tx(cur) and still_fails(dict(cur, cfg="raw"), want):
             cur = dict(cur, cfg="raw")
         if canonical(cur) == before:
             break
@@ -762,7 +1196,7 @@ def canonical(case: dict) -> str:
 def run(chk: Check) -> int:
     proof = proof_stage(PROP, "driver_c06", chk.thorough) if not getattr(chk, "skip_proof", False) else None
     n = chk.budget(2500, 24000)
-    enum_limit = chk.budget(300, 6000)
+    enum_limit = chk.budget(400, 6000)
     found = 0
     found_property = False
     evaluations = 0
@@ -823,7 +1257,7 @@ def run(chk: Check) -> int:
         submit(case, run_impl(case), "corpus:" + name)
     flush()
     # exhaustive schedule enumeration of the small programs
-    for name, prog in (EXHAUSTIVE if chk.thorough else EXHAUSTIVE[:5]):
+    for name, prog in (EXHAUSTIVE if chk.thorough else EXHAUSTIVE[:NQUICK]):
         if found >= 3:
             break
         count = 0
@@ -836,7 +1270,7 @@ def run(chk: Check) -> int:
     flush()
     # cancellation at every suspension point of the small programs
     sweep = 0
-    for name, prog in EXHAUSTIVE[:5]:
+    for name, prog in EXHAUSTIVE[:NQUICK]:
         if found >= 3:
             break
         for case, an in cancel_sweep(prog, chk.rng, chk.budget(1, 6)):
@@ -850,6 +1284,20 @@ def run(chk: Check) -> int:
             break
         case = gen_case(chk.rng, i)
         submit(case, run_impl(case), f"gen:{i}")
+    flush()
+    ntx = chk.budget(500, 3500)
+    for i in range(ntx):
+        if found >= 3:
+            break
+        case = gen_tx_case(chk.rng, i)
+        submit(case, run_impl(case), f"tx:{i}")
+    flush()
+    nmulti = chk.budget(500, 3500)
+    for i in range(nmulti):
+        if found >= 3:
+            break
+        case = gen_multi_case(chk.rng, i)
+        submit(case, run_impl(case), f"multi-backend:{i}")
     flush()
     nrace = chk.budget(500, 5000)
     for i in range(nrace):
@@ -878,6 +1326,18 @@ def run(chk: Check) -> int:
                            "that cannot succeed is not a choice; time passes only when no task has a useful move); "
                            "cancel_sweep_runs = one cancellation at every position x task of complete schedules of them",
         "cancel_sweep_runs": sweep,
+        "transaction_cases": ntx,
+        "transaction_rule": "gen_tx_case: generated programs whose guarded sections are entered INSIDE cache.transaction(mode) blocks "
+                            "(FAST / LOCKED / SERIALIZABLE; whole program, one section, nested blocks, a block opened inside a section "
+                            "body; commit and rollback; application writes into the overlay) while the other tasks are inside their own "
+                            "transaction or outside any; timed and gated; a quarter of them on several backends",
+        "multi_backend_cases": nmulti,
+        "multi_backend_rule": "gen_multi_case: Cache with 2-3 backends under the prefixes '', 'p:', 'q:' (registration order shuffled), each "
+                              "healthy / disabled entirely / PING disabled / SET_LOCK disabled / both; lock keys built with the prefix of "
+                              "one (mostly healthy) owner and contended by 2-3 tasks; the model is told every backend's health and reads "
+                              "the attempt's inputs off the backend that owns the key"
+                              + ("" if FOREIGN_PROBE else "; restriction (finding lock_probe_routed_by_message_text, see level_note): a "
+                                 "default-prefix backend exists and answers PING exactly when the owning backend does"),
         "purge_race_cases": nrace,
         "purge_race_rule": "timed cases on the purge configurations built around one purge tick: overstaying holders leave "
                            "expired lock entries in the store, an acquirer starts at the very instant of the tick (0-2 idle "
@@ -901,6 +1361,9 @@ INTERESTING = {
     "holder_overstays_ttl", "two_bodies_overlap_one_past_lease", "acquired_over_expired_unpurged_entry",
     "late_unlock_answers_false", "late_unlock_leaves_next_holder_alone", "foreign_unlock_on_held_lock",
     "exit_cancelled", "exit_exception", "cancelled_while_waiting",
+    "lock_taken_inside_transaction", "contended_attempt_inside_transaction", "contended_attempt_while_holder_inside_transaction",
+    "transaction_opened_inside_section", "contended_attempt_with_another_backend_unhealthy",
+    "unguarded_entry_set_lock_disabled", "unguarded_entry_owner_does_not_answer_probe", "two_bodies_overlap_no_locking",
 }
 
 
